@@ -1,5 +1,4 @@
 import numpy as np
-import hpgeom as hpg
 
 from .healSparseMap import HealSparseMap
 from .healSparseCoverage import HealSparseCoverage
@@ -299,7 +298,7 @@ def max_intersection(map_list):
         Element-wise maximum of maps
     """
 
-    return _apply_operation(map_list, np.fmax, 0, union=False, int_only=False)
+    return _apply_operation(map_list, np.fmax, _min_max_filler(map_list, True), union=False, int_only=False)
 
 
 def min_intersection(map_list):
@@ -317,7 +316,7 @@ def min_intersection(map_list):
         Element-wise minimum of maps
     """
 
-    return _apply_operation(map_list, np.fmin, -hpg.UNSEEN, union=False, int_only=False)
+    return _apply_operation(map_list, np.fmin, _min_max_filler(map_list, False), union=False, int_only=False)
 
 
 def max_union(map_list):
@@ -335,7 +334,7 @@ def max_union(map_list):
         Element-wise maximum of maps
     """
 
-    return _apply_operation(map_list, np.fmax, 0, union=True, int_only=False)
+    return _apply_operation(map_list, np.fmax, _min_max_filler(map_list, True), union=True, int_only=False)
 
 
 def min_union(map_list):
@@ -353,7 +352,7 @@ def min_union(map_list):
         Element-wise minimum of maps
     """
 
-    return _apply_operation(map_list, np.fmin, -hpg.UNSEEN, union=True, int_only=False)
+    return _apply_operation(map_list, np.fmin, _min_max_filler(map_list, False), union=True, int_only=False)
 
 
 def ufunc_intersection(map_list, func, filler_value=0):
@@ -397,6 +396,19 @@ def ufunc_union(map_list, func, filler_value=0):
     """
 
     return _apply_operation(map_list, func, filler_value, union=True, int_only=False)
+
+
+def _min_max_filler(map_list, is_max):
+    """
+    Get the neutral starting value for a minimum/maximum over maps with the type
+    of the first map: nothing of that type is larger (for min) or smaller (for max).
+    """
+    dtype = map_list[0]._sparse_map.dtype
+    if np.issubdtype(dtype, np.integer):
+        info = np.iinfo(dtype)
+        return dtype.type(info.min if is_max else info.max)
+    else:
+        return dtype.type(-np.inf if is_max else np.inf)
 
 
 def _apply_operation(
